@@ -27,6 +27,7 @@ func H_C14_arbitrary() {
 	vStepLimit(60000 + 20000*n)
 	ToObject(buf, tm)
 	vStepLimit(0)
+	vAssert("returned", true)
 }
 
 func zValidMessage(which int) ([]byte, map[string]reflect.Type) {
@@ -69,6 +70,7 @@ func H_C14_mutated() {
 	vStepLimit(100000 + 20000*len(in))
 	ToObject(in, tm)
 	vStepLimit(0)
+	vAssert("returned", true)
 }
 
 // H_C14_entrypoints: the streaming entry points on hostile input (two reads in a row, serializer).
@@ -78,7 +80,7 @@ func H_C14_entrypoints() {
 	tm := vZooTypeMap()
 	vAllocBound(65536 + n)
 	vStepLimit(100000 + 20000*n)
-	switch vChoice("entry", 3) {
+	switch vChoice("entry", 4) {
 	case 0:
 		d := NewDecoder(&vCountingReader{b: buf}, tm)
 		d.ReadObject()
@@ -89,6 +91,36 @@ func H_C14_entrypoints() {
 		s.Read()
 	case 2:
 		NewDecoder(nil, tm).ReadFrom(&vCountingReader{b: buf})
+	case 3:
+		d := NewDecoder(&vDribbleReader{vCountingReader{b: buf}}, tm)
+		d.ReadObject()
+		d.ReadObject()
 	}
 	vStepLimit(0)
+}
+
+// H_C14_long_list_length: a fixed-length list that really carries more elements than the decoder's allocation
+// chunk, with an arbitrary 32-bit declared length: memory must follow the elements that arrive.
+func H_C14_long_list_length() {
+	const real = 4100
+	typed := vChoice("typed", 2) == 1
+	var wire []byte
+	tm := map[string]reflect.Type{"[int32": reflect.TypeOf([]int32{})}
+	if typed {
+		wire = refCat([]byte{'V'}, refStr("[int32"))
+	} else {
+		wire = []byte{0x58}
+	}
+	// the declared length is edited to a menu of values (a fully symbolic length would cost one solver query per
+	// element actually read; the allocation assertion itself does not need it)
+	n := []int32{real, real + 1, 8192, 65536, 1 << 20, 1 << 30, 2147483647, -1}[vChoice("declared", 8)]
+	wire = append(wire, refInt(n)...)
+	for i := 0; i < real; i++ {
+		wire = append(wire, 0x90+byte(i%40))
+	}
+	vAllocBound(65536 + len(wire))
+	vStepLimit(3000000)
+	ToObject(wire, tm)
+	vStepLimit(0)
+	vAssert("returned", true)
 }
